@@ -5601,18 +5601,25 @@ let cols cfg =
 
 let rec take_in_chunk = function
 | [] -> None
-| c :: t -> (match c with
-             | Print _ -> take_in_chunk t
-             | _ -> Some (c, t))
+| c :: t ->
+  (match c with
+   | Print m0 ->
+     (match take_in_chunk t with
+      | Some p -> let (c0, t') = p in Some (c0, ((Print m0) :: t'))
+      | None -> None)
+   | _ -> Some (c, t))
 
-(** val take_first : inchar list list -> (inchar * istream) option **)
+(** val take_first :
+    inchar list -> inchar list list -> (inchar * istream) option **)
 
-let rec take_first = function
+let rec take_first pending0 = function
 | [] -> None
 | ch :: rest' ->
   (match take_in_chunk ch with
-   | Some p -> let (c, t) = p in Some (c, { in_cur = t; in_rest = rest' })
-   | None -> take_first rest')
+   | Some p ->
+     let (c, t) = p in
+     Some (c, { in_cur = (app pending0 t); in_rest = rest' })
+   | None -> take_first (app pending0 ch) rest')
 
 (** val take_char :
     inchar list -> inchar list list -> (inchar * istream) option **)
@@ -5620,7 +5627,7 @@ let rec take_first = function
 let take_char cur rest =
   match take_in_chunk cur with
   | Some p -> let (c, t) = p in Some (c, { in_cur = t; in_rest = rest })
-  | None -> take_first rest
+  | None -> take_first cur rest
 
 (** val peek_first : inchar list list -> (str * istream) option **)
 
